@@ -60,18 +60,33 @@ def norm_items(items):
 
 def main(tier):
     rep = vlib.Report("C06", tier)
-    sets = aicheck.sets_for(tier)
-    res, errs = aicheck.run_sets({s: jobs_for(s) for s in sets})
-    obligations = discharged = 0
-    samples = []
+    cnt = [0, 0]
 
     def ob(ok, key, detail):
-        nonlocal obligations, discharged
-        obligations += 1
+        cnt[0] += 1
         if ok:
-            discharged += 1
+            cnt[1] += 1
         else:
             rep.violation(key, detail)
+
+    samples = analyse(rep, ob, aicheck.sets_for(tier))
+    cov = {
+        "obligations": cnt[0], "discharged": cnt[1],
+        "checker_cmd": "python3 bin/check C06 (driver ai mode, hash probes at the mu site of 8 entry points per set)",
+        "trusted_base": ["collision resistance of SHAKE256 and of the pre-hash functions", "hash model: update() absorbs exactly its argument", "abstract interpreter soundness"],
+        "samples": samples,
+        "explanation": "prefix-free header (mode byte, exact length byte) + length-delimited context + fixed-length OID make M' uniquely parseable, hence injective in (mode, ctx, M / (PH, digest))",
+    }
+    return rep.finish("proof", cov, ["hash collision resistance", "abstract interpreter soundness"])
+
+
+def analyse(rep, ob, sets, prefix="", sides=("sign", "verify"), extra_opts=None, want_results=False):
+    """M' formatting rules R1-R4 for the given parameter sets; `sides` restricts the entry points"""
+    if prefix:
+        ob0 = ob
+        ob = lambda ok, key, detail: ob0(ok, prefix + key, detail)
+    res, errs = aicheck.run_sets({s: [(a, b, dict(c, **(extra_opts or {}))) for a, b, c in jobs_for(s) if a.split(":")[1] in sides] for s in sets})
+    samples = []
 
     for s in sets:
         r = res.get(s)
@@ -137,14 +152,7 @@ def main(tier):
                 ob(a == b, "R4:sign-verify-agree:%s" % mode, {"rule": "R4 sign and verify format M' identically", "set": s, "sign": a, "verify": b})
         oids = {absorb.OIDS[k][2] for k in absorb.OIDS}
         ob(len(oids) == 3 and len({len(o) for o in oids}) == 1, "R3:oid-table", {"rule": "the three OIDs are pairwise distinct and of equal length"})
-    cov = {
-        "obligations": obligations, "discharged": discharged,
-        "checker_cmd": "python3 bin/check C06 (driver ai mode, hash probes at the mu site of 8 entry points per set)",
-        "trusted_base": ["collision resistance of SHAKE256 and of the pre-hash functions", "hash model: update() absorbs exactly its argument", "abstract interpreter soundness"],
-        "samples": samples,
-        "explanation": "prefix-free header (mode byte, exact length byte) + length-delimited context + fixed-length OID make M' uniquely parseable, hence injective in (mode, ctx, M / (PH, digest))",
-    }
-    return rep.finish("proof", cov, ["hash collision resistance", "abstract interpreter soundness"])
+    return (samples, res) if want_results else samples
 
 
 if __name__ == "__main__":
